@@ -93,10 +93,14 @@ type Table struct {
 	// footer, gives up at the end of the input (pinned by the repo's own reader tests: "header matches, footer line
 	// read io.EOF" -> no match, lines remain) and the target record then consumes the buffered lines one record at a
 	// time. The model ignores the declaration: no such record can occur.
-	Probe      bool        `json:"probe,omitempty"`
-	LeadBlank  int         `json:"lead_blank,omitempty"` // blank lines at the very start
-	Lines      []TableLine `json:"lines"`
-	NoFinalEOL bool        `json:"no_final_eol,omitempty"`
+	Probe bool `json:"probe,omitempty"`
+	// GlobalShadow (old fixed-length with Skip lines): the non-target GLOBAL envelope that consumes the junk lines declares
+	// its column under the NAME of the record's first column, with its own line_pattern (column names are unique per
+	// envelope only).
+	GlobalShadow bool        `json:"global_shadow,omitempty"`
+	LeadBlank    int         `json:"lead_blank,omitempty"` // blank lines at the very start
+	Lines        []TableLine `json:"lines"`
+	NoFinalEOL   bool        `json:"no_final_eol,omitempty"`
 }
 
 // IsCSV says whether the table is for one of the two delimited readers.
@@ -201,8 +205,12 @@ func (t Table) tableFileDecl() obj {
 		}
 		envs := []interface{}{}
 		if len(t.Skip) > 0 {
+			gcol := obj{"name": "g", "start_pos": 1, "length": 3}
+			if t.GlobalShadow && len(t.Cols) > 0 {
+				gcol = obj{"name": t.Cols[0].Name, "start_pos": 1, "length": 3, "line_pattern": "^G"}
+			}
 			envs = append(envs, obj{"name": "GLOBAL", "by_header_footer": obj{"header": "^G", "footer": "^G"}, "not_target": true,
-				"columns": []interface{}{obj{"name": "g", "start_pos": 1, "length": 3}}})
+				"columns": []interface{}{gcol}})
 		}
 		envs = append(envs, obj{"name": "REC", "by_header_footer": obj{"header": t.HeaderRe, "footer": t.FooterRe}, "columns": cols})
 		return obj{"envelopes": envs}
@@ -869,6 +877,9 @@ func DrawTable(t *rapid.T) Table {
 			prefix = "G"
 		}
 		tb.Skip = append(tb.Skip, junk(fmt.Sprintf("skip%d", i), prefix))
+	}
+	if nskip > 0 && tb.Format == "fixed-length" {
+		tb.GlobalShadow = rapid.Bool().Draw(t, "globalShadow")
 	}
 	if csvLike && rapid.IntRange(0, 9).Draw(t, "hasHeader") < 4 {
 		tb.HasHeader = true
